@@ -58,7 +58,7 @@ def run(prop, tier, seed, replay=None):
         for i, sc in enumerate(scen):
             sc["id"] = i
     vh = vlib.build_harness()
-    allscen, scen = scen, [x for x in scen if x.get("kind") != "bigreply"]
+    allscen, scen = scen, [x for x in scen if x.get("kind") != "bigreply" and not (isinstance(x.get("init"), dict) and "proxy" in x["init"])]
     wd = vlib.scratch("trk-")
     sf, rf = os.path.join(wd, "scen.ndjson"), os.path.join(wd, "res.ndjson")
     with open(sf, "w") as f:
@@ -113,6 +113,59 @@ def run(prop, tier, seed, replay=None):
             for nc in o.get("nonconf") or []:
                 v.warn("nonconformance: bigreply: " + nc)
         v.cov["big_replies"] = {"cases": len(big), "rule": "tracker replies of 40 / 700 / 1500 peers delivered to a running torrent whose event loop is busy; GetKnowns must hold exactly the encoded peers"}
+    # the announce discipline of a running torrent, with and without a proxy, HTTP and UDP: walks of Privacy.tla in which
+    # the loop ticks repeatedly after an announce; a contact while the specification's tracker is not due is too early
+    disc_replay = replay and isinstance(allscen[0].get("init"), dict) and "proxy" in allscen[0]["init"]
+    if not replay or disc_replay:
+      pcs = allscen if disc_replay else None
+      if pcs is None:
+          r = run_tlc("MCPrivacy", "Privacy_edges.cfg", workers=1, timeout=600)
+          require_ok(r, "Privacy edge dump (announce discipline)")
+          g = Graph.from_result(r, lambda s: not s["started"])
+          os.unlink(r.outfile)
+
+          def follow(init, names):
+              cur, path = init, []
+              for nm in names:
+                  nxt = [(lab, b) for lab, b in g.out[cur] if lab["l"]["a"] == nm]
+                  if not nxt:
+                      raise Internal("announce discipline: no %s edge" % nm)
+                  path.append(nxt[0])
+                  cur = nxt[0][1]
+              return (init, path)
+          walks = []
+          for i in g.inits:
+              st = g.states[i]
+              if st["conf"] == {"trk": True, "ws": False, "dht": "none"}:
+                  walks.append(follow(i, ["Start", "Tick", "Tick", "Tick", "TrackerDue", "Tick", "Tick", "Tick", "TrackerDue", "Tick", "Tick"]))
+          pcs = []
+          for k, w in enumerate(walks):
+              sc = g.scenario(w, "")
+              sc["id"] = 9500 + k
+              pcs.append(sc)
+      wd3 = vlib.scratch("trkdisc-")
+      sf3, rf3 = os.path.join(wd3, "c.ndjson"), os.path.join(wd3, "r.ndjson")
+      with open(sf3, "w") as f:
+          for c in pcs:
+              f.write(json.dumps(c) + "\n")
+      out3, _ = vlib.run_harness(vh, ["privacy", "-in", sf3, "-out", rf3, "-parallel", "4", "-timeout", "120"], timeout=1200)
+      log(out3.strip())
+      contacts = 0
+      for line in open(rf3):
+          res = json.loads(line)
+          c = pcs[res["index"]]
+          if res.get("crash") or res.get("hang"):
+              raise Internal("announce discipline case failed: %s" % res.get("stderr", "")[-300:])
+          o = res["out"]
+          if o.get("note"):
+              raise Internal("announce discipline: %s" % o["note"])
+          for e in o.get("early") or []:
+              v.violation("contact-too-early:torrent", e, c)
+          contacts += sum(1 for ob in (o.get("observed") or []) if ob and any(x.startswith("tracker:") for x in ob))
+      v.cov["announce_discipline"] = {"walks": len(pcs), "contacts": contacts,
+                                      "rule": "HTTP / UDP tracker x proxy / no proxy: repeated ticks after an announce on a running torrent"}
+      if contacts < 4 and not disc_replay:
+          raise Internal("announce discipline: only %d contacts (vacuous)" % contacts)
     v.cov["traces_validated_against_impl"] = len(scen)
     v.cov["evaluations"] = len(scen)
     v.cov["distinct_nontrivial"] = len({json.dumps([sc.get("hist"), [st["a"] for st in sc.get("steps", [])], sc["kind"]], sort_keys=True) for sc in scen})
